@@ -275,3 +275,49 @@ register(
     suffix="}",
 )
 
+
+
+# --------------------------------------------------------------------------
+# C26: argument guards of the other C entry points (statements before the first
+# dereference / conversion of a pointer argument).  The real functions cannot be
+# compiled by kani-compiler 0.68 (ICE on code reachable from Index::open).
+# --------------------------------------------------------------------------
+register(
+    "ffi_add_json_guard",
+    file="searchlite-ffi/src/lib.rs",
+    after=r"^pub unsafe extern \"C\" fn searchlite_add_json\(",
+    start=r"^\) -> c_int \{",
+    include_start=False,
+    end=r"^\s*let h = &mut \*handle;",
+    prefix=("/// SLICE (regenerated from the current source): statements of `searchlite_add_json`\n"
+            "/// before the handle is dereferenced (c_int::MAX = fell through).\n"
+            "#[allow(unused_unsafe, unreachable_code, unused_variables)]\n"
+            "unsafe fn slice_add_json_guard(handle: *mut IndexHandle, json: *const c_char, _len: usize) -> c_int {"),
+    suffix="  c_int::MAX\n}",
+)
+register(
+    "ffi_commit_guard",
+    file="searchlite-ffi/src/lib.rs",
+    after=r"^pub unsafe extern \"C\" fn searchlite_commit\(",
+    start=r"^pub unsafe extern \"C\" fn searchlite_commit\(",
+    include_start=False,
+    end=r"^\s*let h = &mut \*handle;",
+    prefix=("/// SLICE (regenerated from the current source): statements of `searchlite_commit`\n"
+            "/// before the handle is dereferenced (c_int::MAX = fell through).\n"
+            "#[allow(unused_unsafe, unreachable_code, unused_variables)]\n"
+            "unsafe fn slice_commit_guard(handle: *mut IndexHandle) -> c_int {"),
+    suffix="  c_int::MAX\n}",
+)
+register(
+    "ffi_open_guard",
+    file="searchlite-ffi/src/lib.rs",
+    after=r"^pub unsafe extern \"C\" fn searchlite_index_open\(",
+    start=r"^\) -> \*mut IndexHandle \{",
+    include_start=False,
+    end=r"^\s*let c_str = CStr::from_ptr\(path\);",
+    prefix=("/// SLICE (regenerated from the current source): statements of `searchlite_index_open`\n"
+            "/// before the path pointer is read (a dangling non-null pointer = fell through).\n"
+            "#[allow(unused_unsafe, unreachable_code, unused_variables)]\n"
+            "unsafe fn slice_open_guard(path: *const c_char, create_if_missing: bool) -> *mut IndexHandle {"),
+    suffix="  std::ptr::NonNull::<IndexHandle>::dangling().as_ptr()\n}",
+)
